@@ -5,6 +5,8 @@
 #include "spacial/tbfhilbertspaceindex.hpp"
 #include "spacial/tbfspacialconfiguration.hpp"
 #include "core/tbfcellscontainer.hpp"
+#include "utils/tbfperiodicshifter.hpp"
+#include <cmath>
 #include "common.hpp"
 
 template <class Cells>
@@ -86,6 +88,29 @@ std::string hilbert(long H, const std::string& op, const Cmd& c, size_t a){
     return run_space<decltype(sp), 3>(sp, op, c, a);
 }
 
+// pshift d H code t_1..t_d : TbfPeriodicShifter::Neighbor for the target leaf of coordinates t and the neighbour entry `code`
+// (the source is the wrapped cell): prints need=<0|1> and the shift of every dimension in box widths
+struct SymbOnlyCoord { std::array<long, 4> boxCoord; };
+template <long D>
+std::string pshift(const Cmd& c){
+    using Conf = TbfSpacialConfiguration<double, D>;
+    using Space = TbfMortonSpaceIndex<D, Conf, true>;
+    const long H = c.L(2), code = c.L(3);
+    std::array<double, D> w, ctr; for(long k = 0 ; k < D ; ++k){ w[k] = 2.5; ctr[k] = -0.75; }
+    Conf conf(H, w, ctr);
+    Space sp(conf);
+    struct Sym { std::array<long, D> boxCoord; } tg, sr;
+    const auto rel = Space::getRelativePosFromNeighborIndex(code);
+    const long lim = 1L << (H - 1);
+    for(long k = 0 ; k < D ; ++k){ tg.boxCoord[k] = c.L(4 + k); sr.boxCoord[k] = ((tg.boxCoord[k] + rel[k]) % lim + lim) % lim; }
+    using Shifter = typename TbfPeriodicShifter<double, Space>::Neighbor;
+    const bool need = Shifter::NeedToShift(sr, tg, sp, code);
+    const auto sh = Shifter::GetShiftCoef(sr, tg, sp, code);
+    std::string out = std::string("need=") + (need ? "1" : "0");
+    for(long k = 0 ; k < D ; ++k) out += " " + std::to_string(long(std::lround(sh[k] / w[k])));
+    return out;
+}
+
 static bool has_per(const std::string& op){ return op == "ilist" || op == "nlist" || op == "iblock" || op == "nblock"; }
 
 int main(int argc, char** argv){
@@ -98,6 +123,10 @@ int main(int argc, char** argv){
             return hilbert<false>(H, op, c, 2);
         }
         const long d = c.L(1);
+        if(op == "pshift"){
+            switch(d){ case 1: return pshift<1>(c); case 2: return pshift<2>(c); case 3: return pshift<3>(c); case 4: return pshift<4>(c); }
+            return "?dim";
+        }
         bool per = false; size_t a = 2;
         if(has_per(op)){ per = c.L(2) != 0; a = 3; }
         switch(d*2 + (per?1:0)){
